@@ -308,7 +308,7 @@ class World:
         root = logging.getLogger()
         for h in list(root.handlers):
             root.removeHandler(h)
-        root.setLevel(logging.DEBUG)
+        root.setLevel(logging.DEBUG if keep_debug else logging.INFO)
         self.handler = _LogCapture(self)
         root.addHandler(self.handler)
         self.cookie_threshold = cookie_threshold
